@@ -22,7 +22,7 @@ RULE = (
     "ins_code{2} x res_name{2} (L = 0..4, thorough 0..5), values instantiated from the palette the seed selects; "
     "each pattern as AtomArray (and as depth-2 AtomArrayStack per the stated stride); all residue_* / chain_* "
     "views compared with a per-atom loop; index arrays: every array of length <= 2 over [-2, L+1] when L <= 3, "
-    "else identity, reversal and 4 refused arrays. A seg case is non-trivial when 1 < #residues < L or "
+    "else identity, reversal and 2-4 refused arrays (see bounds). A seg case is non-trivial when 1 < #residues < L or "
     "1 < #chains < L (some but not all neighbouring atoms are separated). "
     "graph: every labelled simple graph on v vertices (all 2^(v(v-1)/2) edge sets), two bond-list encodings each; "
     "non-trivial when it has >= 1 bond and (>= 2 components or a cycle). "
@@ -70,18 +70,25 @@ DEEP = 10000  # recursion depth class boundary used in signatures
 
 
 def bounds(tier):
+    q = tier == "quick"
     return {
-        "seg_max_len": 4 if tier == "quick" else 5,
+        "seg_max_len": "0..4 over all 24 letters" if q else
+                       "0..4 over all 24 letters; 5 over the two 12-letter sub-alphabets (res_name fixed / ins_code fixed)",
         "seg_alphabet": NLET,
-        "seg_palettes": "palette[seed % 5]" if tier == "quick" else "palette 0 and palette[1 + seed % 4] for "
-                        "L <= 4; palette 0 for L = 5 (core view set)",
-        "seg_stack_stride": "all for L <= 3, every 8th pattern for L = 4" if tier == "quick"
-                            else "all for L <= 4, every 16th pattern for L = 5",
-        "index_arrays": "all of length <= 2 over [-2, L+1] for L <= 3; identity, reversal, 4 refused otherwise",
-        "graph_max_vertices": 6 if tier == "quick" else 7,
+        "seg_palettes": "palette[seed % 5]" if q else "palette 0 and palette[1 + seed % 4] for L <= 4; palette 0 for L = 5",
+        "seg_view_set": "L <= 3: full (every index array of length <= 2 over [-2, L+1], 7 reducing functions, 3 spread "
+                        "inputs); L = 4: %s; L = 5: core" % ("core (identity + reversed + 2 refused index arrays, 2 "
+                        "reducing functions, 1 spread input)" if q else "full apart from index arrays (identity, "
+                        "reversed, 4 refused)"),
+        "seg_stack_stride": "all for L <= 3, pattern index %% %d == 1 for L = 4%s" % (
+            (8, "") if q else (4, ", index % 16 == 5 for L = 5")),
+        "graph_max_vertices": 6 if q else 7,
+        "graph_encodings": "2 per graph for v <= 6 (constructor / reversed add_bond with types; AtomArray / stack), "
+                           "1 for v = 7 (alternating)",
         "ladder_sizes": LADDER_SIZES[tier],
         "ladder_shapes": LADDER_SHAPES,
         "ladder_size_caps": SHAPE_MAX,
+        "ladder_entry_points": LADDER_FUNCS,
     }
 
 
@@ -205,8 +212,10 @@ APPLY_CORE = ("sum_int", "mean_axis0")
 APPLY_FULL = ("sum_int", "mean_axis0", "minmax_arr", "len", "first_str", "any_bool", "fsum")
 
 
-def index_arrays(n, full):
-    """(index list, class) ; class in valid / negative / beyond_end / empty_indices"""
+def index_arrays(n, enum, full):
+    """(index list, class) ; class in valid / negative / beyond_end / empty_indices.
+    enum: every array of length <= 2 over [-2, n+1] (plus identity and reversal);
+    otherwise identity, reversal and 4 (full) or 2 (core) refused arrays."""
     out = []
 
     def cls(ix):
@@ -220,7 +229,7 @@ def index_arrays(n, full):
 
     ident = list(range(n))
     cand = []
-    if full:
+    if enum:
         vals = list(range(-2, n + 2))
         cand.append([])
         for v in vals:
@@ -231,8 +240,10 @@ def index_arrays(n, full):
         if n >= 3:
             cand.append(ident)
             cand.append(ident[::-1])
-    else:
+    elif full:
         cand += [ident, ident[::-1], [-1], [n], [n - 1, n], [-1, 0]]
+    else:
+        cand += [ident, ident[::-1], [-1], [n]]
     for ix in cand:
         out.append((ix, cls(ix)))
     return out
@@ -314,7 +325,7 @@ def check_pattern(ctx, case, rows, as_stack, full):
         else:
             run("get_chains", empty, ((nseg,), [rows[s][0] for s in starts]), lambda: F["names"](arr))
         # --- index views --------------------------------------------------
-        for ix, icls in index_arrays(n, full):
+        for ix, icls in index_arrays(n, n <= 3, full):
             ixa = np.array(ix, dtype=np.int64)
             k = len(ix)
             if icls in ("negative", "beyond_end"):
@@ -720,31 +731,34 @@ def seg_palettes(tier, seed):
     return [0, 1 + seed % (len(PALETTES) - 1)]
 
 
+# 12-letter sub-alphabets used for L = 5 (thorough): residue name fixed / insertion code fixed
+SUB = {
+    "all": list(range(NLET)),
+    "name_fixed": [d for d in range(NLET) if d % 2 == 0],
+    "ins_fixed": [d for d in range(NLET) if (d // 2) % 2 == 0],
+}
+
+
 def shards(tier, seed):
     out = []
     # widest first
     if tier == "thorough":
-        for f in range(NLET):
-            for g in range(NLET):
-                out.append({"kind": "seg", "L": 5, "pal": 0, "prefix": [f, g], "level": "core"})
-        out.append({"kind": "graph", "v": 7, "parts": 256, "part": -1})
+        for sub in ("name_fixed", "ins_fixed"):
+            for f in SUB[sub]:
+                for g in SUB[sub]:
+                    out.append({"kind": "seg", "L": 5, "pal": 0, "sub": sub, "prefix": [f, g], "level": "core"})
+        for k in range(256):
+            out.append({"kind": "graph", "v": 7, "parts": 256, "part": k})
+    l4 = "core" if tier == "quick" else "full"
     for p in seg_palettes(tier, seed):
         for f in range(NLET):
             for g in range(0, NLET, 6):
-                out.append({"kind": "seg", "L": 4, "pal": p, "prefix": [f], "second": [g, g + 6], "level": "full"})
+                out.append({"kind": "seg", "L": 4, "pal": p, "sub": "all", "prefix": [f], "second": [g, g + 6],
+                            "level": l4})
         for f in range(NLET):
-            out.append({"kind": "seg", "L": 3, "pal": p, "prefix": [f], "level": "full"})
-        out.append({"kind": "seg", "L": 2, "pal": p, "prefix": [], "level": "full"})
-        out.append({"kind": "seg", "L": 1, "pal": p, "prefix": [], "level": "full"})
-        out.append({"kind": "seg", "L": 0, "pal": p, "prefix": [], "level": "full"})
-    expanded = []
-    for s in out:
-        if s["kind"] == "graph" and s["part"] == -1:
-            for k in range(s["parts"]):
-                expanded.append({**s, "part": k})
-        else:
-            expanded.append(s)
-    out = expanded
+            out.append({"kind": "seg", "L": 3, "pal": p, "sub": "all", "prefix": [f], "level": "full"})
+        for L in (2, 1, 0):
+            out.append({"kind": "seg", "L": L, "pal": p, "sub": "all", "prefix": [], "level": "full"})
     for k in range(16):
         out.append({"kind": "graph", "v": 6, "parts": 16, "part": k})
     out.append({"kind": "graph", "v": [0, 1, 2, 3, 4, 5], "parts": 1, "part": 0})
@@ -761,7 +775,7 @@ def shards(tier, seed):
     big = [s for s in lad if s["n"] >= 100000]
     small = [s for s in lad if s["n"] < 100000]
     rest = out + small
-    k = seed % len(rest)
+    k = (seed * 7) % len(rest)
     return big + rest[k:] + rest[:k]
 
 
@@ -769,7 +783,7 @@ def stack_rule(tier, L, idx):
     if L <= 3:
         return True
     if L == 4:
-        return tier == "thorough" or idx % 8 == 5
+        return idx % (8 if tier == "quick" else 4) == 1
     return idx % 16 == 5
 
 
@@ -795,18 +809,21 @@ def run_shard(shard, ctx):
 def run_seg(shard, ctx):
     L, p, prefix, full = shard["L"], shard["pal"], shard["prefix"], shard["level"] == "full"
     pal = PALETTES[p]
+    letters = SUB[shard["sub"]]
     free = L - len(prefix)
     second = shard.get("second")
     base = 0
     for d in prefix:
         base = base * NLET + d
-    for tail in itertools.product(range(NLET), repeat=free):
+    for tail in itertools.product(letters, repeat=free):
         if second is not None and not (second[0] <= tail[0] < second[1]):
             continue
+        digs = list(prefix) + list(tail)
+        if shard["sub"] == "ins_fixed" and all(d % 2 == 0 for d in digs):
+            continue  # residue name also fixed: already enumerated under name_fixed
         idx = base
         for d in tail:
             idx = idx * NLET + d
-        digs = list(prefix) + list(tail)
         rows = rows_of(digs, pal)
         for as_stack in (False, True):
             if as_stack and not stack_rule(ctx.tier, L, idx):
